@@ -29,9 +29,32 @@ RULE = ("case = (method, id or none, params shape, representation). Non-trivial:
 ASSUMPTIONS = ["custom register_method handlers obey the (response, session_id) return contract or raise"]
 
 
+def build_neighbour(tag: str):
+    """Another server object living in the same process, registering the same names with other behaviour
+    and a few names of its own: the server under test must never be influenced by it."""
+    from chuk_mcp.server.server import MCPServer
+    other = MCPServer(f"neighbour-{tag}", "9.9")
+
+    async def wrong(**kw):
+        return f"WRONG-SERVER-{tag}"
+
+    async def wrong_handler(message, session_id):
+        return other.protocol_handler.create_response(getattr(message, "id", None), {"wrong_server": tag}), None
+
+    for name in sorted(GOOD_TOOLS | RAISING_TOOLS) + [f"only_{tag}"]:
+        other.register_tool(name, wrong, {"type": "object"})
+    other.register_resource("file:///ok.txt", wrong, "wrong")
+    other.register_resource(f"file:///only_{tag}.txt", wrong, "wrong")
+    for name in ["custom/ok", "custom/raise", f"custom/only_{tag}", "notifications/custom-raise"] + CUSTOM_RAISERS + list(CUSTOM_RESULTS):
+        other.protocol_handler.register_method(name, wrong_handler)
+    return other
+
+
 def build_server():
     from chuk_mcp.server.server import MCPServer
+    older = build_neighbour("older")
     srv = MCPServer("verif-server", "1.0")
+    srv._verif_neighbours = [older]
 
     async def echo(text: str = "x"):
         return f"echo:{text}"
@@ -120,6 +143,7 @@ def build_server():
     ph.register_method("notifications/custom-ok", custom_note)
     ph.register_method("notifications/custom-raise", custom_note_raise)
     ph.register_method("notifications/cancelled", custom_note_raise)  # a standard name with a failing handler
+    srv._verif_neighbours.append(build_neighbour("newer"))
     return srv
 
 
@@ -152,10 +176,11 @@ def params_shapes(method: str) -> List[Any]:
         base += [{"name": "echo", "arguments": {"text": "hi  "}}, {"name": "echo", "arguments": None},
                  {"name": "echo", "arguments": "str"}, {"name": "echo", "arguments": [1]},
                  {"name": "echo", "arguments": {"unknown_kw": 1}}, {"name": "dict", "arguments": {"a": None, "b": {"c": []}}},
-                 {"name": "nope"}, {"name": ""}, {"name": 5}, {"name": None}, {"arguments": {}},
+                 {"name": "nope"}, {"name": "only_older"}, {"name": "only_newer"}, {"name": ""}, {"name": 5}, {"name": None}, {"arguments": {}},
                  {"name": ["unhashable"]}, {"name": {"un": "hashable"}}, {"name": "echo", "extra": True}]
     if method == "resources/read":
-        base += [{"uri": "file:///ok.txt"}, {"uri": "file:///bad.txt"}, {"uri": "file:///missing"}, {"uri": 5},
+        base += [{"uri": "file:///ok.txt"}, {"uri": "file:///bad.txt"}, {"uri": "file:///missing"}, {"uri": "file:///only_older.txt"},
+                 {"uri": "file:///only_newer.txt"}, {"uri": 5},
                  {"uri": None}, {"uri": ["x"]}, {"uri": ""}]
     if method == "initialize":
         base += [{"protocolVersion": "2025-06-18", "clientInfo": {"name": "c", "version": "1"}, "capabilities": {}},
@@ -168,7 +193,7 @@ def gen_cases(ctx):
     core = ["initialize", "ping", "tools/list", "tools/call", "resources/list", "resources/read", "custom/ok",
             "custom/raise"] + CUSTOM_RAISERS + list(CUSTOM_RESULTS)
     notes = notification_names() + ["notifications/custom-ok", "notifications/custom-raise", "notifications/unknown-thing"]
-    randoms = ["", " ", "nope", "tools/", "tools/call ", "TOOLS/CALL", "rpc.discover", " ", "a" * 300,
+    randoms = ["", " ", "nope", "custom/only_older", "custom/only_newer", "tools/", "tools/call ", "TOOLS/CALL", "rpc.discover", " ", "a" * 300,
                "notifications/", "prompts/list", "completion/complete", "logging/setLevel", "sampling/createMessage"]
     for _ in range(40 if ctx.tier == "quick" else 400):
         randoms.append("".join(rng.choice("abc/._-$é ") for _ in range(rng.randint(1, 12))))
